@@ -154,6 +154,17 @@ def run(ctx):
         bad = [r for r in f.cfg.returns() if first is not None and f.cfg.dominates(first, r) and not any(f.cfg.dominates(x, r) for x in restores)]
         ctx.ob('CALC-RESTORE', '%s:returns' % name, not bad, f.loc(f.body), 'no return between the state change and its restore' if not bad else 'return at %s leaves the handle changed' % [f.loc(r) for r in bad], None)
 
+    ctx.rule('SCAN-ALL', 'the scan loops of psf_calc_signal_max / psf_calc_max_all_channels visit every item of every block they read: for (k = 0 ; k < readcount ; k++) — '
+             'a loop that starts at 1 never compares the first item of each block', floor=2)
+    for name in ('psf_calc_signal_max', 'psf_calc_max_all_channels'):
+        f = prog.fn(name, 'command.c')
+        loops = [n for n in f.walk() if n['k'] == 'ForStmt' and 'cond' in n and 'init' in n and 'readcount' in f.s(n['cond']) and f.s(n['init']).replace(' ', '').startswith('(k=')]
+        ctx.require(loops, '%s: no scan loop over readcount found' % name)
+        for k_, lp in enumerate(loops):
+            ini, cnd, inc = f.s(lp['init']).replace(' ', ''), f.s(lp['cond']).replace(' ', ''), f.s(lp['inc']).replace(' ', '') if 'inc' in lp else ''
+            ok = ini == '(k=0)' and cnd == '(k<readcount)' and inc in ('k++', '(k++)', '++k', '(++k)', '(k+=1)')
+            ctx.ob('SCAN-ALL', '%s#%d' % (name, k_ + 1), ok, f.loc(lp), 'scan loop %s ; %s ; %s%s' % (ini, cnd, inc, '' if ok else ' — does not cover every item of the block: a maximum at a skipped index is not found'), None)
+
     ctx.rule('GET-MAX', 'psf_get_signal_max takes the maximum over k < channels of peaks [k].value; psf_get_max_all_channels copies peaks [k].value for k < channels; both refuse when there is no peak_info', floor=2)
     for name in ('psf_get_signal_max', 'psf_get_max_all_channels'):
         f = prog.fn(name, 'command.c')
